@@ -76,7 +76,7 @@ def ChatWorld.members (w : ChatWorld) (cid : Nat) : List (Nat × Nat) :=
   | none => []
 
 def ChatWorld.modifyChat (w : ChatWorld) (cid : Nat) (f : PrivChat → PrivChat) : ChatWorld :=
-  { w with chats := w.chats.map fun ch => if ch.id = cid then f ch else ch }
+  { w with chats := w.chats.map fun ch => if ch.id = cid then { f ch with id := ch.id } else ch }
 
 /-- The `*ClientConn` a member entry points at: a live client or a dead connection object. -/
 def ChatWorld.connData (w : ChatWorld) (k : Nat) : Option Client :=
@@ -200,10 +200,7 @@ def ChatWorld.step (w : ChatWorld) (e : ChatEv) : ChatWorld × List Out :=
 /-- Run a history; outputs are kept per event. -/
 def ChatWorld.run (w : ChatWorld) : List ChatEv → ChatWorld × List (List Out)
   | [] => (w, [])
-  | e :: es =>
-    let (w1, o) := w.step e
-    let (w2, os) := w1.run es
-    (w2, o :: os)
+  | e :: es => (((w.step e).1.run es).1, (w.step e).2 :: ((w.step e).1.run es).2)
 
 def ChatWorld.after (w : ChatWorld) (es : List ChatEv) : ChatWorld := es.foldl (fun w e => (w.step e).1) w
 
@@ -424,12 +421,16 @@ theorem ChatWorld.members_delivery (w : ChatWorld) (hns : w.NoStaleReuse) (cid :
   intro m hm
   obtain ⟨ch, hch, hmc⟩ := ChatWorld.mem_members hm
   simp only [Function.comp, deliver, hf, ChatWorld.isConnected]
-  cases hg : w.reg.get m.1 with
-  | none => simp
-  | some c =>
-    have hc := Registry.get_some hg
-    have := hns ch hch m hmc c hc.1 hc.2
-    simp [this]
+  have key : ∀ (o : Option Client), (∀ c, o = some c → c.conn = m.2) →
+      o.map (·.conn) = if (o.map (·.conn) == some m.2) = true then some m.2 else none := by
+    intro o ho
+    cases o with
+    | none => simp
+    | some c => simp [ho c rfl]
+  apply key
+  intro c hg
+  have hc := Registry.get_some hg
+  exact hns ch hch m hmc c hc.1 hc.2
 
 /-- Each connected member is a distinct connection. -/
 theorem ChatWorld.connectedMembers_nodup (w : ChatWorld) (hw : w.Inv) (cid : Nat) :
@@ -456,38 +457,521 @@ theorem ChatWorld.connectedMembers_nodup (w : ChatWorld) (hw : w.Inv) (cid : Nat
       have : a.1 = b.1 := by rw [← ha'.2, ← hb'.2, this]
       omega
 
-theorem ChatWorld.members_modifyChat_other (w : ChatWorld) (cid cid' : Nat) (f : PrivChat → PrivChat)
-    (hf : ∀ ch, (f ch).id = ch.id) (hne : cid' ≠ cid) : (w.modifyChat cid f).members cid' = w.members cid' := by
-  unfold ChatWorld.members ChatWorld.chat ChatWorld.modifyChat
+theorem ChatWorld.chat_modifyChat (w : ChatWorld) (cid cid' : Nat) (f : PrivChat → PrivChat) :
+    (w.modifyChat cid f).chat cid' = (w.chat cid').map (fun ch => if ch.id = cid then { f ch with id := ch.id } else ch) := by
+  unfold ChatWorld.chat ChatWorld.modifyChat
   simp only
-  induction w.chats with
-  | nil => rfl
-  | cons ch chs ih =>
-    simp only [List.map_cons, List.find?_cons]
-    by_cases h1 : ch.id = cid
-    · have : (f ch).id ≠ cid' := by rw [hf, h1]; exact fun h => hne h.symm
-      have h2 : ch.id ≠ cid' := by rw [h1]; exact fun h => hne h.symm
-      simp [h1, this, h2] at ih ⊢
-      exact ih
-    · by_cases h2 : ch.id = cid'
-      · simp [h1, h2]
-      · simp [h1, h2] at ih ⊢
-        exact ih
+  rw [List.find?_map]
+  have : ((fun x : PrivChat => x.id == cid') ∘ fun ch => if ch.id = cid then { f ch with id := ch.id } else ch) = (fun x => x.id == cid') := by
+    funext ch
+    simp only [Function.comp]
+    split <;> rfl
+  rw [this]
 
-theorem ChatWorld.members_modifyChat_same (w : ChatWorld) (cid : Nat) (f : PrivChat → PrivChat)
-    (hf : ∀ ch, (f ch).id = ch.id) (g : List (Nat × Nat) → List (Nat × Nat)) (hg : ∀ ch, (f ch).members = g ch.members)
-    (hnil : g [] = [] ∨ (w.chat cid).isSome) :
-    (w.modifyChat cid f).members cid = if (w.chat cid).isSome then g (w.members cid) else [] := by
-  unfold ChatWorld.members ChatWorld.chat ChatWorld.modifyChat
-  simp only
-  clear hnil
-  induction w.chats with
-  | nil => simp
-  | cons ch chs ih =>
-    simp only [List.map_cons, List.find?_cons]
-    by_cases h1 : ch.id = cid
-    · simp [h1, hf, hg]
-    · simp [h1] at ih ⊢
-      exact ih
+theorem ChatWorld.chat_id {w : ChatWorld} {cid : Nat} {ch : PrivChat} (h : w.chat cid = some ch) : ch.id = cid := by
+  unfold ChatWorld.chat at h
+  simpa using List.find?_some h
+
+theorem ChatWorld.members_modifyChat_other (w : ChatWorld) (cid cid' : Nat) (f : PrivChat → PrivChat)
+    (hne : cid' ≠ cid) : (w.modifyChat cid f).members cid' = w.members cid' := by
+  unfold ChatWorld.members
+  rw [ChatWorld.chat_modifyChat w cid cid' f]
+  cases h : w.chat cid' with
+  | none => rfl
+  | some ch =>
+    have := ChatWorld.chat_id h
+    simp only [Option.map_some]
+    rw [if_neg (by rw [this]; exact hne)]
+
+theorem ChatWorld.members_modifyChat_same (w : ChatWorld) (cid : Nat) (f : PrivChat → PrivChat) :
+    (w.modifyChat cid f).members cid = match w.chat cid with | some ch => (f ch).members | none => [] := by
+  unfold ChatWorld.members
+  rw [ChatWorld.chat_modifyChat w cid cid f]
+  cases h : w.chat cid with
+  | none => rfl
+  | some ch =>
+    have := ChatWorld.chat_id h
+    simp only [Option.map_some]
+    rw [if_pos this]
+
+end Mobius
+
+namespace Mobius
+
+-- ------------------------------------------------------------------ who is addressed by chat traffic
+
+/-- The chat an event names (if any). -/
+def ChatEv.chatId : ChatEv → Option Nat
+  | .inviteNew _ _ _ c => some c
+  | .invite _ _ _ c => some c
+  | .join _ _ c => some c
+  | .leave _ _ c => some c
+  | .decline _ _ c => some c
+  | .setSubject _ _ c _ => some c
+  | .send _ _ c _ _ => c
+  | _ => none
+
+/-- Chat ids are 4 bytes on the wire. -/
+def ChatEv.WF (e : ChatEv) : Prop := ∀ c, e.chatId = some c → c < 4294967296
+
+/-- The events that make client id `i` a member of chat `cid`. -/
+def ChatEv.joins (e : ChatEv) (i cid : Nat) : Bool :=
+  match e with
+  | .join a _ c => a == i && c == cid
+  | .inviteNew a _ _ c => a == i && c == cid
+  | _ => false
+
+def ChatWorld.memberIds (w : ChatWorld) (cid : Nat) : List Nat := (w.members cid).map (·.1)
+
+theorem chatTraffic_mkTran {ty to : Nat} {fs : List Field} {cid : Nat} (h : (mkTran ty to fs).chatTraffic cid = true) :
+    (ty = 106 ∨ ty = 117 ∨ ty = 118 ∨ ty = 119) ∧ ∃ f ∈ fs, f.ty = 114 ∧ f.data = be32 cid := by
+  simp only [Out.chatTraffic, mkTran, Bool.not_false, Bool.true_and, Bool.and_eq_true, Bool.or_eq_true, beq_iff_eq,
+    List.any_eq_true] at h
+  obtain ⟨hty, f, hf, h1, h2⟩ := h
+  exact ⟨by omega, f, hf, h1, h2⟩
+
+theorem chatTraffic_reply {c : Client} {req : Nat} {fs : List Field} {cid : Nat} :
+    (mkReply c req fs).chatTraffic cid = false := by
+  simp [Out.chatTraffic, mkReply]
+
+theorem chatTraffic_err {c : Client} {req : Nat} {msg : String} {cid : Nat} :
+    (mkErr c req msg).chatTraffic cid = false := by
+  simp [Out.chatTraffic, mkErr]
+
+theorem find?_filter_ne (l : List PrivChat) (cid cid' : Nat) (hne : cid ≠ cid') :
+    (l.filter (·.id != cid')).find? (·.id == cid) = l.find? (·.id == cid) := by
+  rw [List.find?_filter]
+  congr 1
+  funext a
+  by_cases h : a.id = cid
+  · simp [h, hne]
+  · simp [h]
+
+/-- Chat traffic of chat `cid` produced by any event is addressed to ids that were in the member
+    map of `cid` before the event. -/
+theorem ChatWorld.traffic_to_members (w : ChatWorld) (e : ChatEv) (hwf : e.WF) (cid : Nat) (hcid : cid < 4294967296)
+    (o : Out) (ho : o ∈ (w.step e).2) (ht : o.chatTraffic cid = true) : o.to ∈ w.memberIds cid := by
+  have inj : ∀ c', e.chatId = some c' → be32 c' = be32 cid → c' = cid :=
+    fun c' hc' hb => be32_inj (hwf c' hc') hcid hb
+  cases e with
+  | login l an ac nm ic =>
+    simp only [ChatWorld.step, stepLogin] at ho
+    split at ho <;> cases ho
+  | disconnect a =>
+    simp only [ChatWorld.step] at ho
+    split at ho
+    · cases ho
+    · simp only [stepDisconnect, List.mem_map] at ho
+      obtain ⟨d, _, rfl⟩ := ho
+      have := (chatTraffic_mkTran ht).1
+      omega
+  | inviteNew a r t c' =>
+    simp only [ChatWorld.step] at ho
+    split at ho
+    · cases ho
+    · simp only [stepInviteNew] at ho
+      split at ho
+      · simp only [List.mem_singleton] at ho; subst ho; rw [chatTraffic_err] at ht; cases ht
+      · split at ho
+        · cases ho
+        · simp only [List.mem_cons, List.not_mem_nil, or_false] at ho
+          rcases ho with rfl | rfl
+          · split at ht
+            · have := (chatTraffic_mkTran ht).1; omega
+            · have := (chatTraffic_mkTran ht).1; omega
+          · rw [chatTraffic_reply] at ht; cases ht
+  | invite a r t c' =>
+    simp only [ChatWorld.step] at ho
+    split at ho
+    · cases ho
+    · simp only [stepInvite] at ho
+      split at ho
+      · simp only [List.mem_singleton] at ho; subst ho; rw [chatTraffic_err] at ht; cases ht
+      · simp only [List.mem_cons, List.not_mem_nil, or_false] at ho
+        rcases ho with rfl | rfl
+        · have := (chatTraffic_mkTran ht).1; omega
+        · rw [chatTraffic_reply] at ht; cases ht
+  | join a r c' =>
+    simp only [ChatWorld.step] at ho
+    split at ho
+    · cases ho
+    · simp only [stepJoin, List.mem_append, List.mem_map, List.mem_singleton] at ho
+      rcases ho with ⟨m, hm, rfl⟩ | rfl
+      · obtain ⟨_, f, hf, h1, h2⟩ := chatTraffic_mkTran ht
+        simp only [whoFieldsFull, List.cons_append, List.nil_append, List.mem_cons, List.not_mem_nil, or_false] at hf
+        rcases hf with rfl | rfl | rfl | rfl | rfl <;> simp at h1
+        have := inj c' rfl h2
+        subst this
+        exact List.mem_map.mpr ⟨m, hm, rfl⟩
+      · rw [chatTraffic_reply] at ht; cases ht
+  | leave a r c' =>
+    simp only [ChatWorld.step] at ho
+    split at ho
+    · cases ho
+    · rename_i c _
+      simp only [stepLeave, List.mem_map] at ho
+      obtain ⟨m, hm, rfl⟩ := ho
+      obtain ⟨_, f, hf, h1, h2⟩ := chatTraffic_mkTran ht
+      simp only [List.mem_cons, List.not_mem_nil, or_false] at hf
+      rcases hf with rfl | rfl <;> simp at h1
+      have := inj c' rfl h2
+      subst this
+      rw [ChatWorld.members_modifyChat_same w c' (fun ch => { ch with members := memDelete c.id ch.members })] at hm
+      unfold ChatWorld.memberIds ChatWorld.members
+      split at hm
+      · exact List.mem_map.mpr ⟨m, (mem_memDelete.mp hm).1, rfl⟩
+      · cases hm
+  | decline a r c' =>
+    simp only [ChatWorld.step] at ho
+    split at ho
+    · cases ho
+    · simp only [stepDecline, List.mem_map] at ho
+      obtain ⟨m, hm, rfl⟩ := ho
+      obtain ⟨_, f, hf, h1, h2⟩ := chatTraffic_mkTran ht
+      simp only [List.mem_cons, List.not_mem_nil, or_false] at hf
+      rcases hf with rfl | rfl <;> simp at h1
+      have := inj c' rfl h2
+      subst this
+      exact List.mem_map.mpr ⟨m, hm, rfl⟩
+  | setSubject a r c' s =>
+    simp only [ChatWorld.step] at ho
+    split at ho
+    · cases ho
+    · simp only [stepSetSubject, List.mem_map] at ho
+      obtain ⟨m, hm, rfl⟩ := ho
+      obtain ⟨_, f, hf, h1, h2⟩ := chatTraffic_mkTran ht
+      simp only [List.mem_cons, List.not_mem_nil, or_false] at hf
+      rcases hf with rfl | rfl <;> simp at h1
+      have := inj c' rfl h2
+      subst this
+      rw [ChatWorld.members_modifyChat_same w c' (fun ch => { ch with subject := s })] at hm
+      unfold ChatWorld.memberIds ChatWorld.members
+      split at hm
+      · exact List.mem_map.mpr ⟨m, hm, rfl⟩
+      · cases hm
+  | send a r c' op msg =>
+    simp only [ChatWorld.step] at ho
+    split at ho
+    · cases ho
+    · simp only [stepSend] at ho
+      split at ho
+      · simp only [List.mem_singleton] at ho; subst ho; rw [chatTraffic_err] at ht; cases ht
+      · split at ho
+        · rename_i id
+          simp only [List.mem_map] at ho
+          obtain ⟨m, hm, rfl⟩ := ho
+          obtain ⟨_, f, hf, h1, h2⟩ := chatTraffic_mkTran ht
+          simp only [List.mem_cons, List.not_mem_nil, or_false] at hf
+          rcases hf with rfl | rfl <;> simp at h1
+          have := inj id rfl h2
+          subst this
+          exact List.mem_map.mpr ⟨m, hm, rfl⟩
+        · simp only [List.mem_map] at ho
+          obtain ⟨d, _, rfl⟩ := ho
+          obtain ⟨_, f, hf, h1, h2⟩ := chatTraffic_mkTran ht
+          simp only [List.mem_cons, List.not_mem_nil, or_false] at hf
+          subst hf
+          simp at h1
+
+end Mobius
+
+namespace Mobius
+
+theorem ChatWorld.members_congr {w w' : ChatWorld} (h : w'.chats = w.chats) (cid : Nat) : w'.members cid = w.members cid := by
+  unfold ChatWorld.members ChatWorld.chat; rw [h]
+
+/-- Somebody who is not in the member map of `cid` stays out of it through every event that is not
+    a join (or the creation of that very chat) by that id. -/
+theorem ChatWorld.nonmember_preserved (w : ChatWorld) (e : ChatEv) (i cid : Nat) (hnot : i ∉ w.memberIds cid)
+    (hj : e.joins i cid = false) : i ∉ (w.step e).1.memberIds cid := by
+  unfold ChatWorld.memberIds at *
+  cases e with
+  | login l an ac nm ic =>
+    simp only [ChatWorld.step, stepLogin]
+    split
+    · exact hnot
+    · exact hnot
+  | disconnect a =>
+    simp only [ChatWorld.step]
+    split
+    · exact hnot
+    · exact hnot
+  | inviteNew a r t c' =>
+    simp only [ChatWorld.step]
+    split
+    · exact hnot
+    · rename_i c hg
+      have hcid := (Registry.get_some hg).2
+      simp only [stepInviteNew]
+      have hnew : i ∉ (ChatWorld.members { w with chats := ⟨c', [], [(c.id, c.conn)]⟩ :: w.chats.filter (·.id != c') } cid).map (·.1) := by
+        unfold ChatWorld.members ChatWorld.chat
+        simp only [List.find?_cons]
+        by_cases hc : c' = cid
+        · subst hc
+          simp only [beq_self_eq_true, List.map_cons, List.map_nil, List.mem_singleton]
+          intro hi
+          simp only [ChatEv.joins, beq_self_eq_true, Bool.and_true, beq_eq_false_iff_ne] at hj
+          exact hj (by rw [← hcid, hi])
+        · have : (c' == cid) = false := by simpa using hc
+          simp only [this]
+          rw [find?_filter_ne _ _ _ (fun h => hc h.symm)]
+          exact hnot
+      split
+      · exact hnot
+      · split <;> exact hnew
+  | invite a r t c' =>
+    simp only [ChatWorld.step]
+    split
+    · exact hnot
+    · simp only [stepInvite]; split <;> exact hnot
+  | join a r c' =>
+    simp only [ChatWorld.step]
+    split
+    · exact hnot
+    · rename_i c hg
+      have hcid := (Registry.get_some hg).2
+      simp only [stepJoin]
+      by_cases hc : c' = cid
+      · subst hc
+        rw [ChatWorld.members_modifyChat_same w c' (fun ch => { ch with members := memInsert (c.id, c.conn) ch.members })]
+        unfold ChatWorld.members at hnot
+        split
+        · rename_i ch hch
+          rw [hch] at hnot
+          intro hi
+          obtain ⟨m, hm, rfl⟩ := List.mem_map.mp hi
+          rcases mem_memInsert.mp hm with rfl | ⟨hm', _⟩
+          · simp only [ChatEv.joins, beq_self_eq_true, Bool.and_true, beq_eq_false_iff_ne] at hj
+            exact hj hcid.symm
+          · exact hnot (List.mem_map.mpr ⟨m, hm', rfl⟩)
+        · simp
+      · rw [ChatWorld.members_modifyChat_other w c' cid _ (fun h => hc h.symm)]
+        exact hnot
+  | leave a r c' =>
+    simp only [ChatWorld.step]
+    split
+    · exact hnot
+    · rename_i c hg
+      simp only [stepLeave]
+      by_cases hc : c' = cid
+      · subst hc
+        rw [ChatWorld.members_modifyChat_same w c' (fun ch => { ch with members := memDelete c.id ch.members })]
+        unfold ChatWorld.members at hnot
+        split
+        · rename_i ch hch
+          rw [hch] at hnot
+          intro hi
+          obtain ⟨m, hm, rfl⟩ := List.mem_map.mp hi
+          exact hnot (List.mem_map.mpr ⟨m, (mem_memDelete.mp hm).1, rfl⟩)
+        · simp
+      · rw [ChatWorld.members_modifyChat_other w c' cid _ (fun h => hc h.symm)]
+        exact hnot
+  | decline a r c' =>
+    simp only [ChatWorld.step]
+    split <;> exact hnot
+  | setSubject a r c' s =>
+    simp only [ChatWorld.step]
+    split
+    · exact hnot
+    · simp only [stepSetSubject]
+      by_cases hc : c' = cid
+      · subst hc
+        rw [ChatWorld.members_modifyChat_same w c' (fun ch => { ch with subject := s })]
+        unfold ChatWorld.members at hnot
+        split
+        · rename_i ch hch
+          rw [hch] at hnot
+          exact hnot
+        · simp
+      · rw [ChatWorld.members_modifyChat_other w c' cid _ (fun h => hc h.symm)]
+        exact hnot
+  | send a r c' o m =>
+    simp only [ChatWorld.step]
+    split
+    · exact hnot
+    · simp only [stepSend]
+      split
+      · exact hnot
+      · split <;> exact hnot
+
+/-- After `leave` by a connected user the member map of that chat no longer lists its id, and the
+    leave notices themselves are not addressed to it. -/
+theorem ChatWorld.leave_removes (w : ChatWorld) (i r cid : Nat) (c : Client) (hg : w.reg.get i = some c) :
+    i ∉ (w.step (.leave i r cid)).1.memberIds cid ∧ ∀ o ∈ (w.step (.leave i r cid)).2, o.to ≠ i := by
+  have hcid := (Registry.get_some hg).2
+  simp only [ChatWorld.step, hg, stepLeave]
+  have hmem : ∀ m ∈ (w.modifyChat cid fun ch => { ch with members := memDelete c.id ch.members }).members cid, m.1 ≠ i := by
+    intro m hm
+    rw [ChatWorld.members_modifyChat_same w cid (fun ch => { ch with members := memDelete c.id ch.members })] at hm
+    split at hm
+    · rw [← hcid]; exact (mem_memDelete.mp hm).2
+    · cases hm
+  constructor
+  · unfold ChatWorld.memberIds
+    intro hi
+    obtain ⟨m, hm, hmi⟩ := List.mem_map.mp hi
+    exact hmem m hm hmi
+  · intro o ho
+    obtain ⟨m, hm, rfl⟩ := List.mem_map.mp ho
+    exact hmem m hm
+
+end Mobius
+
+namespace Mobius
+
+-- ------------------------------------------------------------------ short histories never reissue an id
+
+/-- While the 16-bit id space has not wrapped, ids are handed out in increasing order: every id a
+    chat remembers is at most the counter, so the next id is new. -/
+structure ChatWorld.Fresh (w : ChatWorld) : Prop where
+  live : ∀ c ∈ w.reg.clients, c.id ≤ w.reg.counter
+  mem : ∀ ch ∈ w.chats, ∀ m ∈ ch.members, m.1 ≤ w.reg.counter
+  nsr : w.NoStaleReuse
+
+theorem allocId_first {used : Nat → Bool} (fuel ctr : Nat) (h1 : ctr + 1 < 65536) (hfree : used (ctr + 1) = false) :
+    allocId used (fuel + 1) ctr = some (ctr + 1, ctr + 1) := by
+  unfold allocId
+  have e1 : (ctr + 1) % 4294967296 = ctr + 1 := by omega
+  have e2 : (ctr + 1) % 65536 = ctr + 1 := by omega
+  simp only [e1, e2]
+  rw [if_pos ⟨by omega, hfree⟩]
+
+theorem ChatWorld.Fresh.init : ChatWorld.init.Fresh :=
+  ⟨(by intro c h; cases h), (by intro ch h; cases h), (by intro ch h; cases h)⟩
+
+theorem ChatWorld.Fresh.modifyChat {w : ChatWorld} (hf : w.Fresh) (hw : w.Inv) (cid : Nat) (f : PrivChat → PrivChat)
+    (hm : ∀ ch ∈ w.chats, ∀ m ∈ (f ch).members, m ∈ ch.members ∨ ∃ c ∈ w.reg.clients, m = (c.id, c.conn)) :
+    (w.modifyChat cid f).Fresh := by
+  have key : ∀ ch' ∈ (w.modifyChat cid f).chats, ∀ m ∈ ch'.members,
+      (∃ ch ∈ w.chats, m ∈ ch.members) ∨ ∃ c ∈ w.reg.clients, m = (c.id, c.conn) := by
+    intro ch' hch' m hmm
+    obtain ⟨ch, hch, rfl⟩ := List.mem_map.mp hch'
+    split at hmm
+    · rcases hm ch hch m hmm with h | h
+      · exact Or.inl ⟨ch, hch, h⟩
+      · exact Or.inr h
+    · exact Or.inl ⟨ch, hch, hmm⟩
+  refine ⟨hf.live, ?_, ?_⟩
+  · intro ch' hch' m hmm
+    rcases key ch' hch' m hmm with ⟨ch, hch, h⟩ | ⟨c, hc, rfl⟩
+    · exact hf.mem ch hch m h
+    · exact hf.live c hc
+  · intro ch' hch' m hmm x hx hxid
+    rcases key ch' hch' m hmm with ⟨ch, hch, h⟩ | ⟨c, hc, rfl⟩
+    · exact hf.nsr ch hch m h x hx hxid
+    · have : x = c := hw.reg.sorted.eq_of_id hx hc hxid
+      rw [this]
+
+theorem ChatWorld.step_fresh {w : ChatWorld} (hf : w.Fresh) (hw : w.Inv) (e : ChatEv) (hc : w.reg.counter + 1 < 65536) :
+    (w.step e).1.Fresh ∧ (w.step e).1.reg.counter ≤ w.reg.counter + 1 := by
+  cases e with
+  | login l an ac nm ic =>
+    simp only [ChatWorld.step, stepLogin]
+    have hfree : w.reg.used (w.reg.counter + 1) = false := by
+      cases hu : w.reg.used (w.reg.counter + 1) with
+      | false => rfl
+      | true =>
+        obtain ⟨c, hcm, hid⟩ := Registry.used_iff.mp hu
+        have := hf.live c hcm
+        omega
+    have hal := allocId_first (used := w.reg.used) 65535 w.reg.counter hc hfree
+    unfold Registry.add
+    rw [hal]
+    simp only
+    refine ⟨⟨?_, ?_, ?_⟩, Nat.le_refl _⟩
+    · intro x hx
+      rcases mem_insertClient.mp hx with rfl | ⟨hx', _⟩
+      · exact Nat.le_refl _
+      · have := hf.live x hx'; simp only; omega
+    · intro ch hch m hm
+      have := hf.mem ch hch m hm; simp only; omega
+    · intro ch hch m hm x hx hxid
+      rcases mem_insertClient.mp hx with rfl | ⟨hx', _⟩
+      · have := hf.mem ch hch m hm
+        simp only at hxid
+        omega
+      · exact hf.nsr ch hch m hm x hx' hxid
+  | disconnect a =>
+    simp only [ChatWorld.step]
+    split
+    · exact ⟨hf, Nat.le_succ _⟩
+    · simp only [stepDisconnect, Registry.delete]
+      refine ⟨⟨?_, hf.mem, ?_⟩, by omega⟩
+      · intro c hcm; exact hf.live c (List.mem_filter.mp hcm).1
+      · intro ch hch m hm x hx hxid
+        exact hf.nsr ch hch m hm x (List.mem_filter.mp hx).1 hxid
+  | inviteNew a r t c' =>
+    simp only [ChatWorld.step]
+    split
+    · exact ⟨hf, Nat.le_succ _⟩
+    · rename_i c hg
+      have hcm := (Registry.get_some hg).1
+      simp only [stepInviteNew]
+      have hnew : ChatWorld.Fresh { w with chats := ⟨c', [], [(c.id, c.conn)]⟩ :: w.chats.filter (·.id != c') } := by
+        refine ⟨hf.live, ?_, ?_⟩
+        · intro ch hch m hm
+          rcases List.mem_cons.mp hch with rfl | hch
+          · simp only [List.mem_singleton] at hm; subst hm; exact hf.live c hcm
+          · exact hf.mem ch (List.mem_filter.mp hch).1 m hm
+        · intro ch hch m hm x hx hxid
+          rcases List.mem_cons.mp hch with rfl | hch
+          · simp only [List.mem_singleton] at hm; subst hm
+            have : x = c := hw.reg.sorted.eq_of_id hx hcm hxid
+            rw [this]
+          · exact hf.nsr ch (List.mem_filter.mp hch).1 m hm x hx hxid
+      split
+      · exact ⟨hf, Nat.le_succ _⟩
+      · split <;> exact ⟨hnew, Nat.le_succ _⟩
+  | invite a r t c' =>
+    simp only [ChatWorld.step]
+    split
+    · exact ⟨hf, Nat.le_succ _⟩
+    · simp only [stepInvite]; split <;> exact ⟨hf, Nat.le_succ _⟩
+  | join a r c' =>
+    simp only [ChatWorld.step]
+    split
+    · exact ⟨hf, Nat.le_succ _⟩
+    · rename_i c hg
+      have hcm := (Registry.get_some hg).1
+      refine ⟨hf.modifyChat hw c' _ ?_, by simp only [stepJoin, ChatWorld.modifyChat]; omega⟩
+      intro ch _ m hm
+      rcases mem_memInsert.mp hm with rfl | ⟨h, _⟩
+      · exact Or.inr ⟨c, hcm, rfl⟩
+      · exact Or.inl h
+  | leave a r c' =>
+    simp only [ChatWorld.step]
+    split
+    · exact ⟨hf, Nat.le_succ _⟩
+    · refine ⟨hf.modifyChat hw c' _ ?_, by simp only [stepLeave, ChatWorld.modifyChat]; omega⟩
+      intro ch _ m hm
+      exact Or.inl (mem_memDelete.mp hm).1
+  | decline a r c' =>
+    simp only [ChatWorld.step]
+    split <;> exact ⟨hf, Nat.le_succ _⟩
+  | setSubject a r c' s =>
+    simp only [ChatWorld.step]
+    split
+    · exact ⟨hf, Nat.le_succ _⟩
+    · refine ⟨hf.modifyChat hw c' _ ?_, by simp only [stepSetSubject, ChatWorld.modifyChat]; omega⟩
+      intro ch _ m hm
+      exact Or.inl hm
+  | send a r c' o m =>
+    simp only [ChatWorld.step]
+    split
+    · exact ⟨hf, Nat.le_succ _⟩
+    · simp only [stepSend]
+      split
+      · exact ⟨hf, Nat.le_succ _⟩
+      · split <;> exact ⟨hf, Nat.le_succ _⟩
+
+theorem ChatWorld.after_fresh (es : List ChatEv) (w : ChatWorld) (hw : w.Inv) (hf : w.Fresh)
+    (hlen : w.reg.counter + es.length < 65536) : (w.after es).Fresh := by
+  induction es generalizing w with
+  | nil => exact hf
+  | cons e es ih =>
+    simp only [List.length_cons] at hlen
+    have hs := ChatWorld.step_fresh hf hw e (by omega)
+    have h2 := hs.2
+    exact ih (w.step e).1 (ChatWorld.step_inv hw e) hs.1 (by omega)
 
 end Mobius
